@@ -17,6 +17,9 @@ def load_known():
         return json.load(fh)
 
 
+SESSION = None   # thorough tier: several runs of one rule set (one per feature configuration) are merged into one verdict
+
+
 def safe_name(key):
     return re.sub(r"[^A-Za-z0-9_.=-]+", "_", key)[:180]
 
@@ -44,7 +47,7 @@ class Check:
     # ---- recording
     def ob(self, key, ok, rule, loc="", found=None, required=None, nontrivial=True, detail=None):
         """record one obligation (held / violated)"""
-        key = "%s|%s" % (self.pid, key)
+        key = "%s|%s%s" % (self.pid, (SESSION or {}).get("prefix", ""), key)
         self.obs.append({
             "key": key, "ok": bool(ok), "rule": rule, "loc": loc,
             "found": found if found is None or isinstance(found, (str, int, float, bool, list, dict)) else str(found),
@@ -54,7 +57,7 @@ class Check:
         return ok
 
     def undecide(self, key, reason, loc=""):
-        self.undecided.append({"key": "%s|%s" % (self.pid, key), "reason": reason, "loc": loc})
+        self.undecided.append({"key": "%s|%s%s" % (self.pid, (SESSION or {}).get("prefix", ""), key), "reason": reason, "loc": loc})
 
     def checker_broken(self, msg):
         self.broken.append(msg)
@@ -77,13 +80,37 @@ class Check:
 
     # ---- finishing
     def finish(self, explanation=None, extra=None):
+        if SESSION is not None:
+            st = SESSION.setdefault("stash", {"obs": [], "undecided": [], "broken": [], "notes": [], "analysed": {}, "floors": [], "samples": []})
+            if not SESSION.get("last"):
+                st["obs"] += self.obs
+                st["undecided"] += self.undecided
+                st["broken"] += self.broken
+                st["notes"] += self.notes
+                st["floors"] += self.floors
+                st["samples"] += self.samples
+                for k, v in self.analysed.items():
+                    st["analysed"]["%s%s" % (SESSION.get("prefix", ""), k)] = v
+                return 0
+            self.analysed = dict(st["analysed"], **{"%s%s" % (SESSION.get("prefix", ""), k): v for k, v in self.analysed.items()})
+            self.obs = st["obs"] + self.obs
+            self.undecided = st["undecided"] + self.undecided
+            self.broken = st["broken"] + self.broken
+            self.notes = st["notes"] + self.notes
+            self.floors = st["floors"] + self.floors
+            self.samples = (st["samples"] + self.samples)[:12]
+            self.t0 = SESSION.get("t0", self.t0)
         known = load_known()
         kf = {f["key"]: f for f in known.get("findings", []) if f.get("property") == self.pid}
         violations = []
         knowns = []
+        import re as _re
         for o in self.obs:
             if o["ok"]:
                 continue
+            base_key = _re.sub(r"^(C\d+\|)cfg=\w+\|", r"\1", o["key"])
+            if base_key in kf and o["key"] not in kf:
+                kf[o["key"]] = kf[base_key]
             if o["key"] in kf:
                 knowns.append(o)
             else:
